@@ -24,6 +24,10 @@
 //!   n_lwe=77, radices 15/14/13/12/11 as in the crate's test): LWE of `data` (`logdomain + 1` bits), `execute_to_exponent(log_gap_out = lgo)`;
 //!   every row `i` (column 0) is decrypted and decoded at `min(res_base2k·(i+1), 30)` bits: `ok r0=<pos:val,…> r1=… noise=<max log2 std>`
 //!   (non-zero coefficients of each row; `noise` is the crate's GGSW noise statistic w.r.t. `X^{data << lgo}`, worst cell).
+//! * `wordnoise be= op= a= b=`: a word operation with the noise measured: `ok word=<w> ein=<max key error of the prepared GGSWs> out=<max error of the
+//!   packed result> fresh=<max error of a fresh encryption>` in units of `2^-64` of the torus.
+//! * `noiserounds be= op= a= b= rounds=`: `x ← op(prepare(x), prepare(b))` repeated; per round `words=`, `eins=` (max key error of `prepare(x)`), `outs=`
+//!   (max error of the result), units of `2^-64`.
 //! * `cbt be= a=`: `FheUintPreparedDebug::prepare`, per-cell noise: `ok <max log2 std per (row,col)>…`.
 use std::io::{BufRead, Write};
 use std::sync::Mutex;
@@ -455,6 +459,73 @@ macro_rules! backend_impl {
                             }
                         }
                         format!("ok {} noise={worst:.2}", rows.join(" "))
+                    }
+                    "wordnoise" => {
+                        // noise in, noise out (units of 2^-64 of the torus, max over coefficients): the key error of the circuit-bootstrapped
+                        // GGSWs of both operands (every bit, row, column) and the error of the packed result w.r.t. its decrypted word
+                        let ca = enc(st, a);
+                        let cb = enc(st, b);
+                        let ggsw = st.tc.ggsw_infos();
+                        let mut worst = 0f64;
+                        for (c, v) in [(&ca, a), (&cb, b)] {
+                            let mut p: FheUintPreparedDebug<Vec<u8>, u32> = FheUintPreparedDebug::alloc_from_infos(&st.tc.module, &ggsw);
+                            p.prepare(&st.tc.module, c, &st.tc.bdd_key, st.scratch.borrow());
+                            for row in 0..p.dnum().as_usize() {
+                                for col in 0..p.rank().as_usize() + 1 {
+                                    for s in p.noise(&st.tc.module, row, col, v, &st.tc.sk_glwe, st.scratch.borrow()) {
+                                        worst = worst.max(s.max());
+                                    }
+                                }
+                            }
+                        }
+                        let pa = prep(st, &ca, 0, 32);
+                        let pb = prep(st, &cb, 0, 32);
+                        match apply(st, kvs(t, "op").unwrap_or("add"), 1, &pa, &pb) {
+                            Some(r) => {
+                                let w = dec(st, &r);
+                                let out = r.noise(&st.tc.module, w, &st.tc.sk_glwe, st.scratch.borrow()).max();
+                                let fresh = ca.noise(&st.tc.module, a, &st.tc.sk_glwe, st.scratch.borrow()).max();
+                                let u = |x: f64| (x * 2f64.powi(64)).ceil() as u128;
+                                format!("ok word={w} ein={} out={} fresh={}", u(worst), u(out), u(fresh))
+                            }
+                            None => "bad-op".into(),
+                        }
+                    }
+                    "noiserounds" => {
+                        // x <- op(prepare(x), prepare(b)), `rounds` times; per round the max key error of prepare(x) and the max error of the result
+                        let rounds = kvn(t, "rounds", 3) as usize;
+                        let opn = kvs(t, "op").unwrap_or("add");
+                        let cb = enc(st, b);
+                        let pb = prep(st, &cb, 0, 32);
+                        let ggsw = st.tc.ggsw_infos();
+                        let mut x = enc(st, a);
+                        let mut xv = a;
+                        let u = |v: f64| (v * 2f64.powi(64)).ceil() as u128;
+                        let (mut eins, mut outs, mut words) = (Vec::new(), Vec::new(), Vec::new());
+                        for _ in 0..rounds {
+                            let mut p: FheUintPreparedDebug<Vec<u8>, u32> = FheUintPreparedDebug::alloc_from_infos(&st.tc.module, &ggsw);
+                            p.prepare(&st.tc.module, &x, &st.tc.bdd_key, st.scratch.borrow());
+                            let mut worst = 0f64;
+                            for row in 0..p.dnum().as_usize() {
+                                for col in 0..p.rank().as_usize() + 1 {
+                                    for s in p.noise(&st.tc.module, row, col, xv, &st.tc.sk_glwe, st.scratch.borrow()) {
+                                        worst = worst.max(s.max());
+                                    }
+                                }
+                            }
+                            let px = prep(st, &x, 0, 32);
+                            match apply(st, opn, 1, &px, &pb) {
+                                Some(r) => {
+                                    xv = dec(st, &r);
+                                    outs.push(u(r.noise(&st.tc.module, xv, &st.tc.sk_glwe, st.scratch.borrow()).max()).to_string());
+                                    eins.push(u(worst).to_string());
+                                    words.push(xv.to_string());
+                                    x = r;
+                                }
+                                None => return "bad-op".into(),
+                            }
+                        }
+                        format!("ok words={} eins={} outs={}", words.join(","), eins.join(","), outs.join(","))
                     }
                     "cbt" => {
                         let ca = enc(st, a);
